@@ -250,6 +250,23 @@ CHECKS["C12"] = dict(
     technique="Lean 4 theorems (validity/prefix invariants by induction over arbitrary choice sequences, replacement/swap lemmas, checker soundness) + certification of every real fuzzer/mutator output",
 )
 
+CHECKS["C18"] = dict(
+    category="proof",
+    text="The expected answers of ISLaSolver.check / parse are compositions of verified pieces - the reference recognizer (C10), the tree "
+    "checker and the reference evaluator (C03) - and the theorems tie every expected outcome to the specification for ALL grammars, formulas and "
+    "strings: parse_ok (a tree is returned: the string is in the language and its parse satisfies Sat), parse_syntaxError (not in the language), "
+    "parse_semanticError (in the language, the parse violates Sat), checkStr_true_iff / checkStr_false_iff; results of repair / mutate go "
+    "through the certifier of C01 (certified_result). Tie: check(str), parse(str), parse(skip_check), check(tree) on valid, syntactically "
+    "invalid and semantically invalid inputs of documented + generated problems are compared with the compositions; check(tree) vs check(str) "
+    "on unambiguous inputs; repair(valid input) must return it unchanged; every repair / mutate result is certified.",
+    design_ref="DESIGN.md section 7 C18",
+    note="The parser, the evaluator and the repair / mutate procedures are not modelled here: the tree the real parser returns is an input of "
+    "the model (checked to be a parse of the string); repair / mutate outputs are certified per call. Known findings: repair / mutate let "
+    "listed crash sites of their sub-solver escape; no support for numeric quantifiers in repair. Undecided reference verdicts / Z3 unknowns / "
+    "wall-guard stops give no verdict.",
+    technique="Lean 4 theorems (expected check/parse outcomes as compositions of the verified recognizer, tree checker and evaluator) + differential comparison + certification of repair/mutate results",
+)
+
 NOT_APPLICABLE = {
     "C22": "reproducibility across fresh processes depends on hash randomisation, Z3 seeds/timeouts and wall-clock time; a functional Lean model would prove determinism vacuously and no executable model can exhibit the failure (DESIGN.md section 8)",
 }
